@@ -394,11 +394,13 @@ func (c *ctx) file(p *packages.Package, f *ast.File) []edit {
 			}
 		case *ast.UnaryExpr:
 			if t.Op == token.AND {
-				if cl, ok := unparen(t.X).(*ast.CompositeLit); ok {
-					_ = cl
+				// every pointer value created in module code is registered where it is created (allocation of a composite
+				// literal, or the address of a variable / field / element): registration is idempotent and gives pointer map
+				// keys their canonical order
+				if _, ok := unparen(t.X).(*ast.CompositeLit); ok {
 					c.seams.AllocSites++
-					s.wrap(t, simrtName+".Reg(", ")", 2)
 				}
+				s.wrap(t, simrtName+".Reg(", ")", 2)
 			}
 			if t.Op == token.ARROW && !s.skipCh[t] {
 				fn := "ChanRecv"
@@ -893,7 +895,12 @@ func (s *fileState) call(t *ast.CallExpr) {
 					sid := len(c.seams.RangeSites)
 					c.seams.RangeSites = append(c.seams.RangeSites, RangeSite{ID: sid, Pos: c.pos(t.Pos()), Func: s.curFunc(),
 						MapType: types.TypeString(s.typeOf(t.Args[0]), shortQual), Via: "maps." + sel.Sel.Name})
-					s.wrap(t, fmt.Sprintf("%s.Maps%s(%d, ", simrtName, sel.Sel.Name, sid), ")", 3)
+					// maps.Keys(m) -> zzsimrt.MapsKeys(site, m)
+					s.replace(sel, fmt.Sprintf("%s.Maps%s", simrtName, sel.Sel.Name))
+					s.add(edit{off: c.off(t.Lparen) + 1, class: 1, text: fmt.Sprintf("%d, ", sid)})
+					if _, local, ok := s.pkgOf(sel.X); ok {
+						s.keep[local] = "Clone[map[int]int]"
+					}
 				}
 			}
 		}
